@@ -1,7 +1,7 @@
 ---------------------------- MODULE MC_Requests -----------------------------
 (* Scenario: every subset of optional parameters of every parameter-bearing   *)
 (* command, every subset of the optional members of each nested map.  C01.    *)
-EXTENDS Ctap, Gen, Lattice
+EXTENDS Ctap, Gen, Lattice, Faults
 
 TopSubsets ==
     UNION {{SentCase(c, sv, "top-subset", F) : sv \in SubsetsOf(ReqMin(c), ReqOptVals(c, F))} : c \in ParamCommands}
@@ -61,7 +61,7 @@ PositionCases ==
 \* the limits are per member: nothing bounds their SUM.  Requests whose members are each legal
 \* and whose total length crosses the largest CTAPHID message (7609 bytes) -- one long borrowed
 \* member, or many medium ones
-MsgTargets == {7608, 7609, 7610, 7611, 8192, 16384}
+MsgTargets == {7608, 7609, 7610, 7611, 8192, 16384, 65535, 65536, 65537}
 LongHash(n) == [ReqRich(1, F) EXCEPT !.clientDataHash = Pattern(7, n)]
 LargeMessages ==
     (LET l0 == Len(HostEncode(1, LongHash(7000), F)) IN
@@ -83,6 +83,35 @@ DictCases ==
 ModeCases ==
     UNION {{SentCase(c, sv, "per-mode", F) : sv \in PerMode(CommandTable[c].schema, F, TRUE)} : c \in {6, 10}}
 MC_CasesDict == DictCases \cup ModeCases
+
+\* the ORDER of the members of a text-keyed map carries no meaning: every permutation of the
+\* members of every nested map of up to four members (reversal, rotation and a swap of the first
+\* two for larger ones) decodes to the same request -- descriptors with the type first, parameter
+\* entries with the type first, options, extensions, entities
+TextMaps(c, sv) ==
+    LET ty == T_Indexed(CommandTable[c].schema)
+        t  == ToTree(ty, sv, F, TRUE)
+    IN  {m \in MapsIn(ty, t, << >>, F) : m.s \in {"Rp", "User", "DescRef", "Param", "AuthOptions", "McExt", "GaExtIn"} /\ Len(At(t, m.p).m) >= 2}
+Reorderings(ps) ==
+    LET n == Len(ps) IN
+    IF n <= 4 THEN {[i \in 1..n |-> ps[f[i]]] : f \in Permutations(1..n)} \ {ps}
+    ELSE {[i \in 1..n |-> ps[n + 1 - i]], [i \in 1..n |-> ps[(i % n) + 1]], [i \in 1..n |-> IF i = 1 THEN ps[2] ELSE IF i = 2 THEN ps[1] ELSE ps[i]]}
+OrderSeeds == {[c |-> 1, sv |-> ReqRich(1, F)], [c |-> 2, sv |-> ReqFull(2, F)], [c |-> 10, sv |-> ReqFull(10, F)],
+               [c |-> 1, sv |-> [McReqMin EXCEPT !.pubKeyCredParams = <<[alg |-> ALG_ES256, type |-> <<111, 116, 104, 101, 114>>], ParamOf(ALG_EdDSA),
+                                                                        [alg |-> -257, type |-> N_publicKey], ParamOf(ALG_ES256)>>,
+                                                !.excludeList = <<<<GDesc(1), [id |-> Pattern(3, 16), type |-> <<111, 116, 104, 101, 114>>]>>>>,
+                                                !.options = <<AuthOptsFull>>]]}
+OrderCases ==
+    UNION {LET ty == T_Indexed(CommandTable[x.c].schema)
+               t  == ToTree(ty, x.sv, F, TRUE)
+           IN  UNION {{[op |-> "decode2", tag |-> "member-order", c |-> x.c, sv |-> <<x.sv>>,
+                        wire |-> <<x.c>> \o Enc(Put(t, m.p, CMap(ps)))] : ps \in Reorderings(At(t, m.p).m)} : m \in TextMaps(x.c, x.sv)}
+           : x \in OrderSeeds}
+\* (for the round trip of the bidirectional request types through Request::deserialize)
+RtModeCases ==
+    {SentCase(6, sv, "per-mode-present", F) : sv \in PerModeOn("CpReq", F, TRUE, FullOfLows("CpReq", F, TRUE))}
+    \cup {SentCase(10, sv, "per-mode", F) : sv \in PerMode("CmReq", F, TRUE)}
+    \cup {SentCase(12, sv, "value-lattice", F) : sv \in OneAtATimeOn("LbReq", F, TRUE, FullOfLows("LbReq", F, TRUE))}
 MC_CasesDictDeep ==
     MC_CasesDict
     \cup UNION {{SentCase(c, sv, "dictionary", F) : sv \in DictLatticeDeep(CommandTable[c].schema, F, TRUE)} : c \in {1, 2, 6, 10, 12}}
